@@ -29,7 +29,10 @@ pub fn expected(r: &dyn Retracer, t: &TraceAst, st: &mut Stats, flags: &mut (boo
     });
     let mut frames = Vec::new();
     for f in &t.frames {
-        let out = r.frame_line(&f.class, &f.method, f.line, f.file.as_deref());
+        let out = match &f.params {
+            Some(p) => r.frame_params(&f.class, &f.method, p),
+            None => r.frame_line(&f.class, &f.method, f.line, f.file.as_deref()),
+        };
         match out.len() {
             0 => {
                 flags.0 = true;
@@ -40,7 +43,7 @@ pub fn expected(r: &dyn Retracer, t: &TraceAst, st: &mut Stats, flags: &mut (boo
                 flags.1 = true;
                 st.class(if n == 1 { "frame resolving to 1 frame" } else { "frame resolving to >=2 frames" });
                 for x in out {
-                    frames.push(FrameAst { class: x.class.to_string(), method: x.method.to_string(), line: x.line, file: x.file.map(|s| s.to_string()) });
+                    frames.push(FrameAst { class: x.class.to_string(), method: x.method.to_string(), line: x.line, file: x.file.map(|s| s.to_string()), params: x.params.map(|s| s.to_string()) });
                 }
             }
         }
@@ -119,16 +122,43 @@ pub fn check_case(case: &MapCase, st: &mut Stats) -> Check {
     Ok(())
 }
 
+/// deep cause chains and very long traces (size thresholds inside the typed / text paths)
+pub fn check_big(case: &MapCase, st: &mut Stats) -> Check {
+    let u = Universe::from_ast(&case.file, false);
+    let bytes = case.bytes();
+    let pool = name_pool_for(&case.file, &u);
+    let mut traces: Vec<TraceAst> = sample_n(&trace::deep_trace(&pool), case.key ^ 0xdee9, 2);
+    traces.extend(sample_n(&trace::long_trace(&pool), case.key ^ 0x1049, 2));
+    let m = mapper(&bytes, false)?;
+    let buf = write_cache(&bytes)?;
+    let cache = parse_cache(&buf)?;
+    for t in &traces {
+        st.class(if t.depth() > 100 { "cause chain depth >= 126" } else { "trace with >= 350 frames (printed form > 16 KiB)" });
+        no_panic("remap_stacktrace_typed", || {
+            check_trace(&m, t, st)?;
+            check_trace(&cache, t, st)
+        })
+        .map_err(|mut f| {
+            f.msg = crate::engine::truncate(&f.msg, 1500);
+            f.detail = json!({"depth": t.depth(), "frames": t.frames.len()});
+            f
+        })?;
+    }
+    Ok(())
+}
+
 pub fn run(ctx: &Ctx) -> Report {
     let mut rep = Report::new(ID, "exploration", ctx);
     rep.rule = "Cases: generated mappings x 30 typed traces each (throwables of mapped and unmapped classes incl. platform exceptions, with/without message; frames mapped/unmapped with any line; cause chains of depth 0..4), for mapper and cache. Oracle: structural — same cause-chain depth; each throwable is remap_throwable(t) or t itself; the frame list is the concatenation of remap_frame(f) if non-empty else [f]; nothing dropped. Agreement: for traces in canonical printed form (try_parse(print(T)) == Some(T)), print(typed(T)) == text API output for print(T). evaluations = typed remaps checked (+ text comparisons). Non-trivial = distinct traces with >=1 unmapped throwable or unresolved frame and >=1 resolved element.".into();
     rep.run_stage("ast", || map_case(&cfg()), ctx.cases(15_000, 600_000), check_case);
+    rep.run_stage("big", || map_case(&cfg()), ctx.cases(150, 3_000), check_big);
     rep
 }
 
 pub fn replay(stage: &str, case: &Value) -> Check {
     let mut st = Stats::new();
     match stage {
+        "big" => check_big(&serde_json::from_value(case.clone()).map_err(|e| Fail::new("harness-replay", e.to_string()))?, &mut st),
         "ast" => check_case(&serde_json::from_value(case.clone()).map_err(|e| Fail::new("harness-replay", e.to_string()))?, &mut st),
         _ => Err(Fail::new("harness-replay", format!("unknown stage {stage}"))),
     }
